@@ -9,8 +9,8 @@ package main
 // file system; the same abstract tree is sent to the model. Compared: see Corr/PIPE.v.
 //
 // Domain restrictions of the generator (each is a stated scope limit of the model, design.d/PIPE.md):
-//   no patches / images / replicas / replacements / vars / components / configurations / helm / plugins,
-//   generators with literal sources only (all behaviours, generatorOptions), no immutable;
+//   no patches / replacements / vars / components / configurations / helm / plugins,
+//   generators with literal, env-file and file sources (all behaviours, generatorOptions, binaryData), no immutable;
 //   no `kind: List`, no empty documents, no anchors, no comments,
 //   no internal.config.kubernetes.io annotations in inputs, no ',' in names (PrevIds panic, C12 finding).
 //
@@ -39,7 +39,7 @@ import (
 
 func init() {
 	register("PIPE", propDef{
-		header: "From KV Require Import Corr.PIPE.\nFrom KV Require Labels.\nFrom KV Require Gen.LegacyOrder.\n" +
+		header: "From KV Require Import Corr.PIPE.\nFrom KV Require Labels Res.Replica Res.Image.\nFrom KV Require Gen.LegacyOrder.\n" +
 			"Open Scope string_scope.\n",
 		caseType:   "casePIPE",
 		mismatchFn: "mismatchesPIPE",
@@ -78,6 +78,13 @@ var pipeFieldPool = []pipeFS{
 	{Kind: "Gadget", Path: "spec/extra"},
 }
 
+// an env file / a file source of a generator: path relative to the kustomization, content (bytes: base64 in JSON)
+type pipeSrc struct {
+	Spec    string `json:"spec"` // file sources: "key=path" or "path"; env files: the path
+	Path    string `json:"path"`
+	Content []byte `json:"content"`
+}
+
 type pipeGenSpec struct {
 	Name        string            `json:"name"`
 	Namespace   string            `json:"namespace"`
@@ -88,6 +95,8 @@ type pipeGenSpec struct {
 	Labels      map[string]string `json:"labels"`
 	Annos       map[string]string `json:"annotations"`
 	DisableHash bool              `json:"disableHash"`
+	Envs        []pipeSrc         `json:"envs,omitempty"`
+	FileSrcs    []pipeSrc         `json:"fileSrcs,omitempty"`
 }
 
 // generatorOptions: of one kustomization
@@ -95,6 +104,19 @@ type pipeGenOpts struct {
 	Labels      map[string]string `json:"labels"`
 	Annos       map[string]string `json:"annotations"`
 	DisableHash bool              `json:"disableHash"`
+}
+
+// replicas: / images: entries of one kustomization
+type pipeReplica struct {
+	Name  string `json:"name"`
+	Count int64  `json:"count"`
+}
+type pipeImage struct {
+	Name      string `json:"name"`
+	NewName   string `json:"newName,omitempty"`
+	TagSuffix string `json:"tagSuffix,omitempty"`
+	NewTag    string `json:"newTag,omitempty"`
+	Digest    string `json:"digest,omitempty"`
 }
 
 type pipeFile struct {
@@ -118,6 +140,8 @@ type pipeDir struct {
 	CmGens       []pipeGenSpec     `json:"cmGens"`
 	SecGens      []pipeGenSpec     `json:"secGens"`
 	GenOpts      *pipeGenOpts      `json:"genOpts,omitempty"`
+	Replicas     []pipeReplica     `json:"replicas,omitempty"`
+	Images       []pipeImage       `json:"images,omitempty"`
 	Ents         []*pipeEnt        `json:"ents"`
 	parent       *pipeDir
 	depth        int
@@ -197,6 +221,7 @@ type pipeGen struct {
 	nextID int
 	refs   int
 	locals int
+	srcN   int
 }
 
 func pipePodSpec(rng *Rng) map[string]interface{} {
@@ -569,6 +594,37 @@ func (g *pipeGen) genSpec(rng *Rng, secret bool, layer *pipeDir) pipeGenSpec {
 		}
 		s.Literals = append(s.Literals, k+"="+v)
 	}
+	g.srcN++
+	if rng.Chance(22) {
+		lines := []string{"E1=one", "# a comment", "", "E2=two words", "  E3=x=y", "BARE"}
+		n := 1 + rng.Intn(len(lines))
+		txt := strings.Join(lines[:n], "\n") + "\n"
+		if rng.Chance(20) {
+			txt = "\xef\xbb\xbf" + txt // BOM
+		}
+		pth := fmt.Sprintf("g%d.env", g.srcN)
+		s.Envs = append(s.Envs, pipeSrc{Spec: pth, Path: pth, Content: []byte(txt)})
+	}
+	if rng.Chance(25) {
+		nf := 1 + rng.Intn(2)
+		for i := 0; i < nf; i++ {
+			pth := fmt.Sprintf("f%d-%d.txt", g.srcN, i)
+			spec := pth
+			if rng.Chance(50) {
+				spec = fmt.Sprintf("fk%d=%s", i, pth)
+			}
+			var content []byte
+			switch rng.Intn(4) {
+			case 0:
+				content = []byte{0xff, 0xfe, 0x00, 0x41} // not UTF-8: binaryData in a ConfigMap
+			case 1:
+				content = []byte("line1\nline2\n")
+			default:
+				content = []byte(rng.Pick(pipeAdvValues))
+			}
+			s.FileSrcs = append(s.FileSrcs, pipeSrc{Spec: spec, Path: pth, Content: content})
+		}
+	}
 	if secret && rng.Chance(30) {
 		s.Type = rng.Pick([]string{"Opaque", "kubernetes.io/tls", "x"})
 	}
@@ -761,6 +817,46 @@ func pipeGenCase(rng *Rng, rules []krusty.VerifC03Rule) *pipeCase {
 			}
 		}
 	}
+	// replicas / images
+	for _, d := range g.dirs {
+		if rng.Chance(18) {
+			var names []string
+			for _, o := range g.objs {
+				if !o.Gen && (o.Layer == d || isUnder(o.Layer, d)) &&
+					(o.Kind == "Deployment" || o.Kind == "StatefulSet") {
+					names = append(names, o.Name)
+				}
+			}
+			name := "" // no entry
+			if len(names) > 0 && rng.Chance(92) {
+				name = names[rng.Intn(len(names))]
+			} else if rng.Chance(10) {
+				name = "no-such-workload" // error branch, kept rare
+			}
+			if name != "" {
+				d.Replicas = append(d.Replicas, pipeReplica{Name: name, Count: int64(rng.Intn(9))})
+			}
+		}
+		if rng.Chance(22) {
+			n := 1 + rng.Intn(2)
+			for i := 0; i < n; i++ {
+				im := pipeImage{Name: rng.Pick([]string{"nginx", "busybox", "nginx", "registry.io/app", "ngin"})}
+				switch rng.Intn(5) {
+				case 0:
+					im.NewTag = rng.Pick([]string{"1.9", "v2", "latest"})
+				case 1:
+					im.NewName = rng.Pick([]string{"my/nginx", "other"})
+				case 2:
+					im.Digest = "sha256:" + strings.Repeat("ab", 8)
+				case 3:
+					im.NewName, im.NewTag = "reg.local/x", "9"
+				default:
+					im.TagSuffix = "-dev"
+				}
+				d.Images = append(d.Images, im)
+			}
+		}
+	}
 	// files and entries
 	for _, d := range g.dirs {
 		var mine []*pipeObj
@@ -847,6 +943,20 @@ func pipeGenYaml(s pipeGenSpec, secret bool) map[string]interface{} {
 		}
 		m["literals"] = l
 	}
+	if len(s.Envs) > 0 {
+		l := []interface{}{}
+		for _, e := range s.Envs {
+			l = append(l, e.Spec)
+		}
+		m["envs"] = l
+	}
+	if len(s.FileSrcs) > 0 {
+		l := []interface{}{}
+		for _, e := range s.FileSrcs {
+			l = append(l, e.Spec)
+		}
+		m["files"] = l
+	}
 	if secret && s.Type != "" {
 		m["type"] = s.Type
 	}
@@ -927,6 +1037,13 @@ func pipeRenderDir(pc *pipeCase, d *pipeDir, path string, top bool) {
 		}
 		k["labels"] = l
 	}
+	for _, gl := range [][]pipeGenSpec{d.CmGens, d.SecGens} {
+		for _, s := range gl {
+			for _, e := range append(append([]pipeSrc{}, s.Envs...), s.FileSrcs...) {
+				pc.Files[path+"/"+e.Path] = string(e.Content)
+			}
+		}
+	}
 	if len(d.CmGens) > 0 {
 		var l []interface{}
 		for _, s := range d.CmGens {
@@ -940,6 +1057,33 @@ func pipeRenderDir(pc *pipeCase, d *pipeDir, path string, top bool) {
 			l = append(l, pipeGenYaml(s, true))
 		}
 		k["secretGenerator"] = l
+	}
+	if len(d.Replicas) > 0 {
+		var l []interface{}
+		for _, rp := range d.Replicas {
+			l = append(l, map[string]interface{}{"name": rp.Name, "count": rp.Count})
+		}
+		k["replicas"] = l
+	}
+	if len(d.Images) > 0 {
+		var l []interface{}
+		for _, im := range d.Images {
+			m := map[string]interface{}{"name": im.Name}
+			if im.NewName != "" {
+				m["newName"] = im.NewName
+			}
+			if im.TagSuffix != "" {
+				m["tagSuffix"] = im.TagSuffix
+			}
+			if im.NewTag != "" {
+				m["newTag"] = im.NewTag
+			}
+			if im.Digest != "" {
+				m["digest"] = im.Digest
+			}
+			l = append(l, m)
+		}
+		k["images"] = l
 	}
 	if d.GenOpts != nil {
 		o := map[string]interface{}{}
@@ -1043,8 +1187,16 @@ func pipeCoqPairs(m map[string]string) string {
 }
 
 func pipeCoqGen(s pipeGenSpec) string {
-	return fmt.Sprintf("(mkPGen %s %s %s %s %s %s %s %s %s)", coqStr(s.Name), coqStr(s.Namespace), coqStr(s.Behavior), coqStrList(s.Literals),
-		coqStr(s.Type), coqBool(s.HasOpts), pipeCoqPairs(s.Labels), pipeCoqPairs(s.Annos), coqBool(s.DisableHash))
+	var envs, files []string
+	for _, e := range s.Envs {
+		envs = append(envs, coqStr(string(e.Content)))
+	}
+	for _, e := range s.FileSrcs {
+		files = append(files, fmt.Sprintf("(%s, %s)", coqStr(e.Spec), coqStr(string(e.Content))))
+	}
+	return fmt.Sprintf("(mkPGenX %s %s %s %s %s %s %s %s %s [%s] [%s])", coqStr(s.Name), coqStr(s.Namespace), coqStr(s.Behavior), coqStrList(s.Literals),
+		coqStr(s.Type), coqBool(s.HasOpts), pipeCoqPairs(s.Labels), pipeCoqPairs(s.Annos), coqBool(s.DisableHash),
+		strings.Join(envs, "; "), strings.Join(files, "; "))
 }
 
 var customFields bool // set by pipeCoqDir when a labels entry carries custom fields (distribution only)
@@ -1110,9 +1262,17 @@ func pipeCoqDir(d *pipeDir, vals map[string]bool) (string, bool) {
 		note(d.GenOpts.Annos)
 		gopts = fmt.Sprintf("(Some (mkPGopts %s %s %s))", pipeCoqPairs(d.GenOpts.Labels), pipeCoqPairs(d.GenOpts.Annos), coqBool(d.GenOpts.DisableHash))
 	}
-	dirs := fmt.Sprintf("(mkPDirsG %s %s %s [%s] %s %s [%s] [%s] %s)", coqStr(d.Ns), coqStr(d.Prefix), coqStr(d.Suffix),
+	var rps, ims []string
+	for _, rp := range d.Replicas {
+		rps = append(rps, fmt.Sprintf("(Replica.mkReplica %s %s)", coqStr(rp.Name), coqStr(fmt.Sprint(rp.Count))))
+		vals[fmt.Sprint(rp.Count)] = true
+	}
+	for _, im := range d.Images {
+		ims = append(ims, fmt.Sprintf("(Image.mkImage %s %s %s %s %s)", coqStr(im.Name), coqStr(im.NewName), coqStr(im.TagSuffix), coqStr(im.NewTag), coqStr(im.Digest)))
+	}
+	dirs := fmt.Sprintf("(mkPDirsX %s %s %s [%s] %s %s [%s] [%s] %s [%s] [%s])", coqStr(d.Ns), coqStr(d.Prefix), coqStr(d.Suffix),
 		strings.Join(labels, "; "), pipeCoqPairs(d.CommonLabels), pipeCoqPairs(d.CommonAnnos),
-		strings.Join(cm, "; "), strings.Join(sec, "; "), gopts)
+		strings.Join(cm, "; "), strings.Join(sec, "; "), gopts, strings.Join(rps, "; "), strings.Join(ims, "; "))
 	return fmt.Sprintf("(PDir %s %s [%s])", coqStr(d.Name), dirs, strings.Join(ents, "; ")), true
 }
 
@@ -1297,6 +1457,8 @@ func pipeCountKinds(r *Run, d *pipeDir, depth int, maxDepth *int, ndirs *int) {
 	used("configMapGenerator", len(d.CmGens) > 0)
 	used("secretGenerator", len(d.SecGens) > 0)
 	used("generatorOptions", d.GenOpts != nil)
+	used("replicas:", len(d.Replicas) > 0)
+	used("images:", len(d.Images) > 0)
 	for _, e := range d.Ents {
 		if e.File != nil {
 			for _, y := range e.File.Docs {
@@ -1360,6 +1522,8 @@ func pipeErrKind(msg string) string {
 		return "generator-repeated-key"
 	case strings.Contains(msg, "conflicting fieldspecs") || strings.Contains(msg, "failed to merge"):
 		return "label-fieldspec-conflict"
+	case strings.Contains(msg, "does not match a config with the following GVK"):
+		return "replica-no-match"
 	case strings.Contains(msg, "cannot merge or replace"):
 		return "merge-target-missing"
 	case strings.Contains(msg, "behavior must be merge or replace"):
